@@ -11,6 +11,10 @@ AcceptedRegimes == {0, 1, 4, 6, 7}
 C01Configs == {[phase |-> pf[1], fabric |-> pf[2], regime |-> r, n |-> n] : pf \in Valid, r \in AcceptedRegimes, n \in Ns}
 C01Pars == {[M |-> m, chi |-> c, asm |-> <<0, 1>>, phiOl |-> 7, x |-> <<l, pn>>] :
               m \in {0, 10, 125, 200}, c \in {0, 3, 9}, l \in {0, 5, 50}, pn \in {0, 1, 2}}
+\* long single-mineral histories with strong boundary mobility and no sliding floor: grains
+\* shrink towards zero volume, where the solver's absolute tolerance can push them negative
+C01LongConfigs == {[phase |-> 0, fabric |-> f, regime |-> r, n |-> n] : f \in {0, 1, 3}, r \in {4, 6}, n \in Ns}
+C01LongPars == {[M |-> m, chi |-> 0, asm |-> <<0>>, phiOl |-> 10, x |-> <<5, 0>>] : m \in {125, 200}}
 C01Next == \E m \in Minerals :
               \/ \E c \in Configs, s \in Seeds, tx \in Textures : Create(m, c, s, tx, InitO(s, c.n, tx), InitF(c.n, tx))
               \/ \E fl \in Flows, par \in Pars, cb \in Callbacks \cup {NoCb} :
